@@ -43,7 +43,7 @@ CHECKS = {
              "energies, patch histograms, patch-wise and mono curves of the executable model IDENTICAL (everything depends "
              "on positions through differences); relabelling invariance of the recursion under any patch renumbering with "
              "permuted pair list (what axis permutations induce); distances and all delay bins are preserved by "
-             "orthogonal maps + translation; pt_solution / Stokes(translation) / tiling(translation) kernel invariances "
+             "orthogonal maps + translation; pt_solution / Stokes(translation) / tiling(translation, 48 axis maps) kernel invariances "
              "collected; visibility invariant given equal point-in-polygon answers; rescaling wall normal/up changes no "
              "BRDF direction. NOT carried: the 0.5%-of-peak bound under axis permutations (Nusselt asymmetry; measured), "
              "Stokes under rotations/scalings, Nusselt branch, point-in-polygon under rotations.",
@@ -124,7 +124,9 @@ CHECKS = {
              "cell (congruent, in the wall plane); cells have disjoint interiors, cover the bounding rectangle and lie in "
              "it; areas sum to the wall area; wall attribution and normals by contiguous blocks; output depends only on "
              "per-axis extents and per-vertex flat coordinate hence identical for all vertex orders of a planar wall; "
-             "translation equivariance; Kang tiling = fast tiling. Over any ordered field with floor laws (Qc instance).",
+             "translation equivariance; under each of the 48 signed axis permutations the patch list of the image wall is a "
+             "permutation of the images of the patches (explicit index map, one fixed vertex reorder; both engines); "
+             "Kang tiling = fast tiling. Over any ordered field with floor laws (Qc instance).",
         note=TRUST + "Float rounding of the last grid line and of translation is measured, not proved; the sqrt-based "
              "_polygon_area clause assumes SqrtLaws (no Qc instance).",
         technique="Coq proof over ordered field with floor + extracted-model correspondence", ref="5/C08"),
